@@ -1,6 +1,9 @@
 package main
 
 import (
+	"bytes"
+	"crypto/sha256"
+	"encoding/json"
 	"fmt"
 	"go/ast"
 	"go/constant"
@@ -62,7 +65,7 @@ func LoadNormalized(dir, goarch string, tags []string) (*Ctx, error) {
 	if os.Getenv("MQTTCHECK_NO_NORMALIZE") != "" {
 		return Load(dir, goarch, tags, nil)
 	}
-	overlay, notes := Normalize(dir, goarch, tags)
+	overlay, notes := cachedNormalize(dir, goarch, tags)
 	if d := os.Getenv("MQTTCHECK_DUMP_NORM"); d != "" && overlay != nil {
 		os.MkdirAll(d, 0o755)
 		for k, v := range overlay {
@@ -1221,4 +1224,95 @@ func (c *Ctx) ResolveAt(v ssa.Value, at ssa.Instruction) ssa.Value {
 		return r
 	}
 	return first
+}
+
+// cachedNormalize: Normalize, remembered per (directory, file contents, architecture, tags, checker binary) in the user's
+// cache directory: the twenty checks of one tree normalise it once. The cache is an optimisation only; it is keyed by
+// content, and a missing or unreadable entry is recomputed.
+func cachedNormalize(dir, goarch string, tags []string) (map[string][]byte, []string) {
+	if os.Getenv("MQTTCHECK_NO_NORM_CACHE") != "" || os.Getenv("MQTTCHECK_DEBUG_NORM") != "" {
+		return Normalize(dir, goarch, tags)
+	}
+	abs, err := filepath.Abs(dir)
+	if err != nil {
+		return Normalize(dir, goarch, tags)
+	}
+	h := sha256.New()
+	fmt.Fprintf(h, "arch=%s\ntags=%v\n", goarch, tags)
+	if exe, err := os.Executable(); err == nil {
+		if st, err := os.Stat(exe); err == nil {
+			fmt.Fprintf(h, "exe=%s %d %d\n", exe, st.Size(), st.ModTime().UnixNano())
+		}
+	}
+	ents, err := os.ReadDir(abs)
+	if err != nil {
+		return Normalize(dir, goarch, tags)
+	}
+	for _, e := range ents {
+		n := e.Name()
+		if e.IsDir() || (!strings.HasSuffix(n, ".go") && n != "go.mod") {
+			continue
+		}
+		b, err := os.ReadFile(filepath.Join(abs, n))
+		if err != nil {
+			return Normalize(dir, goarch, tags)
+		}
+		fmt.Fprintf(h, "%s %d %x\n", n, len(b), sha256.Sum256(b))
+	}
+	cdir, err := os.UserCacheDir()
+	if err != nil {
+		return Normalize(dir, goarch, tags)
+	}
+	cdir = filepath.Join(cdir, "mqttcheck-norm")
+	file := filepath.Join(cdir, fmt.Sprintf("%x.json", h.Sum(nil)))
+	type entry struct {
+		Dir     string
+		Overlay map[string][]byte
+		Notes   []string
+		None    bool
+	}
+	if b, err := os.ReadFile(file); err == nil {
+		var e entry
+		if json.Unmarshal(b, &e) == nil {
+			if e.None {
+				return nil, e.Notes
+			}
+			if e.Dir == abs {
+				return e.Overlay, e.Notes
+			}
+			// the same sources in another directory: file names (map keys and //line directives) are rebased
+			out := map[string][]byte{}
+			for k, v := range e.Overlay {
+				if !strings.HasPrefix(k, e.Dir+string(filepath.Separator)) {
+					out = nil
+					break
+				}
+				nk := filepath.Join(abs, strings.TrimPrefix(k, e.Dir+string(filepath.Separator)))
+				out[nk] = bytes.ReplaceAll(v, []byte("//line "+e.Dir+"/"), []byte("//line "+abs+"/"))
+			}
+			if out != nil {
+				var notes []string
+				for _, nt := range e.Notes {
+					notes = append(notes, strings.ReplaceAll(nt, e.Dir+"/", abs+"/"))
+				}
+				return out, notes
+			}
+		}
+	}
+	overlay, notes := Normalize(dir, goarch, tags)
+	if os.MkdirAll(cdir, 0o755) == nil {
+		if b, err := json.Marshal(entry{Dir: abs, Overlay: overlay, Notes: notes, None: overlay == nil}); err == nil {
+			tmp := fmt.Sprintf("%s.%d", file, os.Getpid())
+			if os.WriteFile(tmp, b, 0o644) == nil {
+				os.Rename(tmp, file)
+			}
+		}
+		// keep the cache small
+		if list, err := os.ReadDir(cdir); err == nil && len(list) > 400 {
+			for _, e := range list[:len(list)-300] {
+				os.Remove(filepath.Join(cdir, e.Name()))
+			}
+		}
+	}
+	return overlay, notes
 }
